@@ -135,7 +135,7 @@ P["C12"] = {
     "assumptions": A_CORE + A_FILE + A_TIME,
 }
 P["C13"] = {
-    "common": {"validate": 6, "ignore_kinds": ["alloc", "unwind"], "runs": [{"pattern": "verifHarness_C13_", "label_filter": "C13:"}]},
+    "common": {"validate": 6, "ignore_kinds": ["alloc", "unwind"], "runs": [{"pattern": "verifHarness_C13_", "label_filter": "C13:"}, {"pattern": "verifHarness_C19_", "label_filter": "C19:"}]},
     "thorough": {"validate": 16},
     "bounds": "57 (caller-written schema, covering Go type) pairs: long and int x int/int16/int32/int64 (full-width values within the schema's range), float/double x float32/float64, unions with null second (and first) over pointers, omitempty fields, plain fields, null.* wrappers, bool/bytes/string/float32; fixed of size 0/4/16 with [n]byte; arrays and maps with int/float items and null-second nullable items; null.Int under long/int, null.Float under double/float, pointer to null.Int, arrays of null.Int; logical date / timestamp types over time.Time and *time.Time (harnesses C19_*, same engine run); for each pair that builds: the bytes written decode under the caller's schema with the reference decoder to the expected datum with nothing left over, and the library reads them back to the original value",
     "outside": "nested records deeper than 2; schemas outside the enumerated family",
